@@ -99,7 +99,9 @@ def run(prop, tier, seed, opts):
         if header_line is None or not case_lines:
             raise V.Broken("EngineLife emitted no header / no histories")
         # long random walks of the same state machine (TLC simulation): 24 operations each
-        nwalks = 6 if tier == "quick" else 120
+        # (the thorough tier goes deep by walks: every history of 4 operations is 3.6 million histories / 5 GB since the source
+        # table grew -- measured, TLC alone needs minutes and the replay hours; the exhaustive bound is 3 in both tiers)
+        nwalks = 6 if tier == "quick" else 2500
         sres = V.run_tlc(scratch, "EngineLife", "MC_C01_sim.cfg", workers=1, timeout=900, sub="tlc-sim",
                          extra=["-simulate", "num=%d" % nwalks, "-depth", "25", "-seed", str(seed)])
         V.tlc_ok(sres, "EngineLife/MC_C01_sim.cfg")
@@ -135,7 +137,12 @@ def run(prop, tier, seed, opts):
         rnd = random.Random(seed)
         rnd.shuffle(case_lines)
         pool_path = scratch.path("pool.ndjson")
-        results, shares = run_histories(harness, scratch, header_line, case_lines, oracle_path, pool_path=pool_path)
+        # (the pool traffic of the first 150 000 histories is recorded and validated: the recording is a file of its own size)
+        traced, untraced = case_lines[:150000], case_lines[150000:]
+        results, shares = run_histories(harness, scratch, header_line, traced, oracle_path, pool_path=pool_path)
+        if untraced:
+            r2, s2 = run_histories(harness, scratch, header_line, untraced, oracle_path, tag="u")
+            results, shares = results + r2, shares + s2
         failing = [r for r in results if not r["pass"]]
         # the traffic of the render-context pools during all those histories, against PoolDiscipline (the pools are what
         # carries state from one render to the next)
